@@ -130,12 +130,31 @@ def facts_to_node(path, facts):
             "FilePath": path, "Functions": fns}
 
 
+def cluster_unit(idx, n):
+    """one class of a cluster in which every class holds and calls every other one (many connected call chains)"""
+    others = [j for j in range(n) if j != idx]
+    body = [("expr", ("call", ("name", "fK%d" % j), "sayHi", [])) for j in others] + [("return", None)]
+    return {"pkg": "p.cluster", "imports": [], "kind": "class", "name": "K%d" % idx,
+            "fields": [{"mods": ["private"], "type": "K%d" % j, "name": "fK%d" % j} for j in others],
+            "members": [{"kind": "method", "annos": [], "mods": ["public"], "ret": "void", "name": "sayHi", "params": [], "body": body,
+                         "pre_nl": 1, "mods_own_line": False}]}
+
+
 def rand_dir_case(rng):
     files, nodes = {}, []
     n = rng.choice([1, 2, 3])
     layout = rng.choice(["flat", "maven"])
+    cluster = rng.random() < 0.12
+    if cluster:
+        n = rng.choice([3, 4, 5])
     for i in range(n):
-        u = rand_unit(rng, i)
+        u = cluster_unit(i, n) if cluster else rand_unit(rng, i)
+        if cluster:
+            text, facts = javagen.render_unit(u, rng, wild=0.0, comments=["note"])
+            path = ("src/main/java/p/cluster/K%d.java" % i) if layout == "maven" else "K%d.java" % i
+            files[path] = text
+            nodes.append(facts_to_node(path, facts))
+            continue
         text, facts = javagen.render_unit(u, rng, wild=rng.choice([0.0, 0.0, 0.05]), comments=["note", "if (x) {", "switch"])
         path = ("src/main/java/p/k%d/K%d.java" % (i, i)) if layout == "maven" else "K%d.java" % i
         files[path] = text
@@ -176,7 +195,8 @@ def gen(rng, tier):
                 c["sort"] = rng.random() < 0.5
                 # a fifth of the rendered trees go through the real `coca bs -p dir [-x kinds] [-s type]` in a fresh process
                 # (coca_reporter/bs.json); ignore rules must survive the command line
-                if rng.random() < 0.2 and all("," not in x for x in c["ignore"]):
+                if (rng.random() < 0.2 or any("cluster" in f or len(c["files"]) >= 4 for f in c["files"])) and all("," not in x for x in c["ignore"]) \
+                        and rng.random() < 0.6:
                     c["cli"] = True
                 sh.append(c)
         shards.append(sh)
@@ -247,6 +267,8 @@ def oracle(case, out, raw):
 
 def view(o):
     """tie order of the unstable sort is unspecified: canonicalise sized groups by (-size, rest)"""
+    if isinstance(o, dict) and "extra" in o:
+        o = {k: v for k, v in o.items() if k != "extra"}      # kinds outside the modelled decision layer: compared between runs only (view_det)
     if not isinstance(o, dict) or "sorted" not in o:
         return o
     res = {}
@@ -263,8 +285,11 @@ def view_det(o):
     if not isinstance(o, dict) or "sorted" not in o:
         return o
     from . import core
-    return {"sorted": {k: (core.tie_groups(g, lambda f: f["Size"]) if k in SIZED else sorted(json.dumps(f, sort_keys=True) for f in g))
-                       for k, g in o["sorted"].items()}}
+    r = {"sorted": {k: (core.tie_groups(g, lambda f: f["Size"]) if k in SIZED else sorted(json.dumps(f, sort_keys=True) for f in g))
+                    for k, g in o["sorted"].items()}}
+    if "extra" in o:
+        r["extra"] = o["extra"]
+    return r
 
 
 def nontrivial(case, mo):
